@@ -195,7 +195,7 @@ func (d *delit) canonMinMax(as *ast.AssignStmt) []ast.Stmt {
 		return nil
 	}
 	call, ok := as.Rhs[0].(*ast.CallExpr)
-	if !ok || len(call.Args) != 2 || call.Ellipsis != token.NoPos {
+	if !ok || len(call.Args) < 2 || call.Ellipsis != token.NoPos {
 		return nil
 	}
 	fn, ok := call.Fun.(*ast.Ident)
@@ -210,6 +210,32 @@ func (d *delit) canonMinMax(as *ast.AssignStmt) []ast.Stmt {
 		return nil
 	}
 	xs := types.ExprString(x)
+	if len(call.Args) > 2 {
+		// X = min(X, A, B, …): one clamp per further operand, in order
+		if as.Tok != token.ASSIGN {
+			return nil
+		}
+		op := token.GTR
+		if fn.Name == "max" {
+			op = token.LSS
+		}
+		self := 0
+		var out []ast.Stmt
+		for _, a := range call.Args {
+			if types.ExprString(a) == xs {
+				self++
+				continue
+			}
+			if !simpleOperand(a) || strings.Contains(types.ExprString(a), xs) {
+				return nil
+			}
+			out = append(out, &ast.IfStmt{Cond: &ast.BinaryExpr{X: x, Op: op, Y: a}, Body: &ast.BlockStmt{List: []ast.Stmt{assign([]ast.Expr{x}, token.ASSIGN, []ast.Expr{a})}}})
+		}
+		if self != 1 {
+			return nil
+		}
+		return out
+	}
 	a, m := call.Args[0], call.Args[1]
 	if types.ExprString(m) == xs && as.Tok == token.ASSIGN {
 		a, m = m, a
